@@ -143,7 +143,7 @@ var clauseKeywords = map[string]bool{
 	"trusted": true, "loop": true, "decreases": true, "props": true, "noinline": true, "callreq": true,
 	"mustcall": true, "callassert": true, "havoc": true, "replay": true, "bounded": true, "nofork": true,
 	"ghost-effect": true, "known": true, "assume-ensures": true, "opaque": true, "paths": true,
-	"timeout": true, "unroll": true, "nosafe": true, "calls": true, "reads": true, "typeinv": true, "inline-calls": true, "no-visibility-frame": true, "count-calls": true, "callers": true, "rank": true, "aftercall": true, "stable": true,
+	"timeout": true, "unroll": true, "nosafe": true, "calls": true, "reads": true, "typeinv": true, "inline-calls": true, "no-visibility-frame": true, "count-calls": true, "callers": true, "rank": true, "aftercall": true, "stable": true, "only-writers": true, "by-induction": true, "dispatch": true, "forget": true, "preserves": true,
 }
 
 // loadSpecs reads every zz_verif_contracts*.go under root.
@@ -337,11 +337,21 @@ func parseSpecFile(path, pkg string) (*SpecFile, error) {
 				cl.Loop = n
 				cl.Kind = "loop-" + parts[1]
 				cl.Text = parts[2]
-				e, err := parseSpecExpr(parts[2])
-				if err != nil {
-					return nil, fail(err)
+				if parts[1] == "assigns" {
+					for _, part := range splitTop(parts[2], ',') {
+						e, err := parseSpecExpr(part)
+						if err != nil {
+							return nil, fail(err)
+						}
+						cl.Locs = append(cl.Locs, e)
+					}
+				} else {
+					e, err := parseSpecExpr(parts[2])
+					if err != nil {
+						return nil, fail(err)
+					}
+					cl.Expr = e
 				}
-				cl.Expr = e
 			case "assigns", "reads":
 				if rest != "" && rest != "nothing" {
 					for _, part := range splitTop(rest, ',') {
@@ -825,4 +835,13 @@ func specString(e SExpr) string {
 		return x.Name
 	}
 	return "?"
+}
+
+// preserved: the heap-key fragments named by `preserves` clauses.
+func (c *Contract) preserved() []string {
+	var out []string
+	for _, cl := range c.get("preserves") {
+		out = append(out, cl.Args...)
+	}
+	return out
 }
